@@ -9,6 +9,7 @@ import DTML.Quote
 import DTML.VarPipe
 import DTML.ExtImpl
 import DTML.Sort
+import DTML.Stats
 open Lean DTML
 
 namespace Driver
@@ -152,6 +153,32 @@ def opSort (j : Json) : Except String Json := do
   let out := Sort.display ExtImpl.asciiLower fs rev (Sort.decorate rows)
   return Json.arr (out.map (fun e => Json.num e.1)).toArray
 
+def parseRat (j : Json) : Except String Rat := do
+  let a ← j.getArr?
+  let n ← (a[0]!).getInt?
+  let d ← (a[1]!).getNat?
+  return mkRat n d
+
+def jRat (r : Rat) : Json := Json.arr #[jInt r.num, Json.num r.den]
+def jRatO : Option Rat → Json
+  | some r => jRat r
+  | none => Json.null
+
+/-- op "stats": summary statistics of a list of rationals / None -/
+def opStats (j : Json) : Except String Json := do
+  let itemsJ ← j.getObjValAs? (Array Json) "items"
+  let items ← itemsJ.toList.mapM fun x => match x with
+    | .null => pure none
+    | _ => do pure (some (← parseRat x))
+  let isInt ← getBool j "isInt"
+  let xs := Stats.numeric items
+  let p := Stats.pass xs
+  return Json.mkObj [("count", Json.num p.count), ("total", jRat p.sum),
+    ("mean", if xs.isEmpty then Json.null else jRat (Stats.mean xs)),
+    ("varN", if xs.isEmpty then Json.null else jRat (Stats.varianceN xs)),
+    ("var", if xs.length ≤ 1 then Json.null else jRat (Stats.variance xs)),
+    ("min", jRatO p.min), ("max", jRatO p.max), ("median", jRatO (Stats.median isInt xs))]
+
 def handle (j : Json) : Except String Json := do
   let op ← getStr j "op"
   match op with
@@ -162,6 +189,7 @@ def handle (j : Json) : Except String Json := do
   | "quote" => opQuote j
   | "var" => opVar j
   | "sort" => opSort j
+  | "stats" => opStats j
   | "ping" => return Json.str "pong"
   | _ => throw s!"unknown op {op}"
 
